@@ -96,7 +96,9 @@ CONTRACTS.update({
               "chunk_field_first(result, 'K0') == self._from_idx + start and chunk_field_first(result, 'K1') == self._from_idx + start and "
               "chunk_field_src(result, 'K0') == self._data_source[self._mapping['K0']] and chunk_field_src(result, 'K1') == self._data_source[self._mapping['K1']]")]),
  'NumpyDataWrapper.load_chunk': dict(
-    props=['C11', 'C03', 'C08', 'C10'], self_fields=dict(NW_FIELDS, _mapping=M2), self_inv=SW_INV + ['self._to_idx <= self._data_source.shape0'],
+    # C18 too ("a frame's records hold the slots of its own channels only"): the shortcut hands out rows of the caller's array as they
+    # are, which is a frame row only when the array's dtype IS the frame's chunk dtype (round 7, C18-M: one array feeding two frames)
+    props=['C11', 'C03', 'C08', 'C10', 'C18'], self_fields=dict(NW_FIELDS, _mapping=M2), self_inv=SW_INV + ['self._to_idx <= self._data_source.shape0'],
     params={'start': 'int', 'stop': 'int?'}, returns='opq:chunk',
     stubs={}, raises={'ValueError': f'self._dtype != self._data_source.dtype and ({LOAD_RAISES})'},
     requires=['0 <= start', f'start <= {STOP}', f'{STOP} <= self._n_rows'],
